@@ -146,6 +146,44 @@ def r14_2(run, model):
                witness="`check` and `build` of the same sources emit different interfaces (hash mismatch at link, or a stale check result)")
 
 
+def _prefix_strings(model, f, e, depth=0):
+    """the string literals an expression used as a gensym prefix can evaluate to (through if / match, immutable locals and same-file
+    helpers that return a string); empty when it is computed from something else (a hint taken from the program)"""
+    if depth > 3:
+        return set()
+    k = e["k"]
+    if k == "Lit" and e.get("lit") == "Str":
+        return {e["value"]}
+    if k in ("Ref", "Paren"):
+        return _prefix_strings(model, f, e["expr"], depth)
+    if k == "If" and e.get("else") is not None:
+        return _prefix_strings(model, f, e["then"], depth + 1) | _prefix_strings(model, f, e["else"], depth + 1)
+    if k == "Match":
+        out = set()
+        for a in e["arms"]:
+            out |= _prefix_strings(model, f, a["body"], depth + 1)
+        return out
+    if k == "Block" and e["stmts"] and e["stmts"][-1]["k"] == "ExprStmt" and not e["stmts"][-1].get("semi"):
+        return _prefix_strings(model, f, e["stmts"][-1]["expr"], depth + 1)
+    if k == "Path" and len(e["segs"]) == 1:
+        out = set()
+        for l in S.find(f.body, "Local"):
+            if l.get("init") is not None and e["segs"][0] in S.pat_bindings(l["pat"]):
+                out |= _prefix_strings(model, f, l["init"], depth + 1)
+        return out
+    if k in ("Call", "MethodCall") and S.callee_name(e):
+        hs = [h for h in model.fns(f.file) if h.name == S.callee_name(e) and h.body is not None and
+              re.search(r"str|String", h.node.get("ret") or "")]
+        out = set()
+        for h in hs:
+            out |= _prefix_strings(model, h, h.body, depth + 1)
+            for r in S.find(h.body, "Return"):
+                if r.get("expr") is not None:
+                    out |= _prefix_strings(model, h, r["expr"], depth + 1)
+        return out
+    return set()
+
+
 def r14_4(run, model):
     run.rule("R14.4", "freshness survives separate counters: temporaries minted before linking (compile_match) and after it (lift, anf, go) use "
                       "disjoint prefixes and no prefix of one group extends a prefix of the other by digits")
@@ -158,9 +196,11 @@ def r14_4(run, model):
                 continue
             for c in S.calls(f.body, "gensym"):
                 lits = [x["value"] for x in c["args"] if x["k"] == "Lit" and x.get("lit") == "Str"]
-                if not lits:
-                    continue
-                (pre if rel.endswith("compile_match.rs") else post).setdefault(lits[0], rel)
+                if not lits and c["args"]:
+                    # the prefix chosen by a helper / a match / a local: every string it can be
+                    lits = sorted(_prefix_strings(model, f, c["args"][0]))
+                for lit_ in lits:
+                    (pre if rel.endswith("compile_match.rs") else post).setdefault(lit_, rel)
     run.floor("gensym prefixes before linking", len(pre), 2)
     run.floor("gensym prefixes after linking", len(post), 3)
     both = sorted(set(pre) & set(post))
@@ -695,6 +735,10 @@ def run(run, model):
     run.try_rule(c13.file_identity_order, model, "R14.11")
     run.try_rule(c13.file_identity_sort_key, model, "R14.11")
     run.try_rule(r14_1, model)
+    # a fact recomputed from a type when an artifact is read back (where whole-program compilation keeps the original) is computed by a
+    # complete traversal (shared with C07 R07.2, restricted to the artifact layer)
+    from rules import c07 as _c07
+    run.try_rule(_c07.r07_2, model, None, "C14")
     run.try_rule(canonical_link_order, model)
     run.try_rule(r14_12, model)
     run.try_rule(r14_14, model)
